@@ -1142,6 +1142,7 @@ int main (int argc, char **argv) {
 		if (opt_maxexecs && (long)n_execs >= opt_maxexecs) { capped |= 8; break; }
 	}
 	double dt = wall () - t0;
+	if (opt_nohash) n_states = n_steps_new;   /* stateless: nodes of the schedule tree */
 	printf ("{\"config\":"); json_str (stdout, config_name);
 	printf (",\"family\":"); json_str (stdout, famname);
 	printf (",\"program\":"); json_str (stdout, program);
